@@ -4,7 +4,9 @@ PENDING = "check not built yet (work in progress in this session); no claim is m
 ENGINES = [
     {"name": "E0-build", "path": "vt/build.py", "serves_properties": ["*"],
      "kind_free_text": "rebuilds the f2py extension and five ctypes variants (plain, asan+ubsan, auto-init zero/pattern, tsan-instrumented for vrt) from /repo's working tree into /verif/.cache/<hash>"},
-    {"name": "E1-explore", "path": "vt/runner.py", "serves_properties": ["C11"],
+    {"name": "E3-vrt", "path": "vt/vrt.py + vt/c/vrt.c", "serves_properties": ["C13", "C07", "C20"],
+     "kind_free_text": "stateless schedule explorer for the OpenMP kernels: gcc -fsanitize=thread instrumentation of the unmodified sources linked against our own GOMP/omp/__tsan runtime (ucontext coroutines on one OS thread), preemption-bounded DFS over choice prefixes, conflict-set fixpoint, region-boundary state hashing"},
+    {"name": "E1-explore", "path": "vt/runner.py", "serves_properties": ["C11", "C13"],
      "kind_free_text": "bounded exhaustive input/configuration enumeration against reference models, sharded over 16 processes, counted evidence, known-findings matching, replay files"},
 ]
 
@@ -13,6 +15,10 @@ CHECKS = [
      "technique": "bounded exhaustive enumeration of all small images (2- and 3-letter pixel alphabets) against a flood-fill reference model",
      "text": "every two-valued image of every shape up to 4x4 (thorough: up to 20 pixels incl. 4x5, 2x10) and every three-valued sparse image up to 3x3/2x4 (thorough 3x4, 2x6) is run through the real dense, sparse, splat kernels and the Python wrappers for both connectivities, two thresholds conventions and two poison fills; plus a stated catalogue of adversarial generators at the boundary sizes (incl. >16384 provisional labels). Exhaustive within those bounds; nothing claimed outside.",
      "note": "trusted: the flood-fill oracle (cross-checked against scipy.ndimage.label on every case), numpy, the f2py wrapper generator; pixel values restricted to the stated alphabets"},
+    {"id": "C13", "engine": "E3-vrt", "level": "model_checking",
+     "technique": "stateless model checking: all OpenMP thread schedules of the real compiled kernel up to a preemption bound (CHESS-style iterative context bounding with conflict-directed scheduling points and region-boundary state caching), plus bounded exhaustive input enumeration against a steepest-ascent reference",
+     "text": "localmaxlabel is compiled from /repo/src with tsan instrumentation and run on our own GOMP/tsan runtime (threads = coroutines). For all 720 orders of a 2x3 interior in a 4x5 frame (two border patterns, two poison fills) every schedule with T=2,3,4 threads and <=1 preemption (T=2: <=2; T=3 <=2 on a quarter of the images in quick, all in thorough; thorough adds T=2 bound 3, T=4 bound 2, 5x4 and 5x5 frames) is executed and compared with the oracle; dynamic-schedule row hand-out is part of the choices. Sequential semantics: all orders of interiors up to 3x3 in frames up to 5x5, all ordered sub-patterns of a 3x3 grid for the sparse kernel, dense/sparse agreement, real libgomp with 1..8 (thorough ..64) threads.",
+     "note": "sequentially consistent interleavings of the -O0 loads/stores only; conflict set grown to a fixpoint over explored executions; states = schedule-tree nodes visited, every one executed on the real code (traces_validated = executions)"},
 ]
 
 NOT_APPLICABLE = [
